@@ -10,8 +10,10 @@ for it (`calculate_busy(msg)`, a function of the message length and the bitrate 
 jitter sample `j` that `calculate_duration` draws when (if) the message is transmitted, so
 `calculate_duration(msg) = latency + tx + j`.
 
-`unbusy` is the code *after* the fix for finding F5 (dequeue while the channel is not busy);
-see patches/C07-unbusy-drain-zero-time.diff.
+`unbusy` is the code *after* the fix for finding F5 (dequeue while the channel is not busy;
+patches/C07-unbusy-drain-zero-time.diff) and `send_message` the code after the fix for finding
+F14 (the exit event is handed to the sink *before* the unbusy notification;
+patches/C07-exit-before-unbusy.diff).
 -/
 namespace Chan
 
@@ -105,7 +107,7 @@ def sendMessage (mt : Metrics) (s : State) (now : Nat) (m : Msg) : State × List
     let busy := m.tx
     if busy ≠ 0 then
       ({ s with busy := true, finish := now + busy },
-       [.unbusyAt (now + busy), .exitAt (now + dur) m.id], .started)
+       [.exitAt (now + dur) m.id, .unbusyAt (now + busy)], .started)
     else
       (s, [.exitAt (now + dur) m.id], .started)
 
